@@ -37,3 +37,17 @@ Example C02_reaches_done :
   let s := run c (init c [[0;1];[2;3];[4];[5;6];[7;8];[9]]) (rr 3 80) in
   main s = MDone /\ executed s = [0;1;2;3;4;5;6;7;8;9] /\ map inst (slots s) = [2;2;0].
 Proof. vm_compute. repeat split. Qed.
+
+(* (4) "its own function": on a pool used for several calls (other functions and parameters, kept-alive workers,
+   replacements after a lifespan, apply_async in between) the tasks of a completed call are executed by the call's
+   OWN function -- never skipped in favour of another call's function (history model, effects read off the source) *)
+From Mpv Require Import GenStruct GenParams OrderHist Hist HistProofs.
+Theorem C02_tasks_run_the_calls_own_function :
+  forall l k h, Forall good_obs (hrun (hinit l k) h).
+Proof. exact call_uses_own_params. Qed.
+Print Assumptions C02_tasks_run_the_calls_own_function.
+
+Theorem C02_replacements_use_the_same_parameters :
+  forall l k h, let s := hstate (hinit l k) h in alive s = true -> p_params s = Some (w_params s).
+Proof. intros l k h s Ha. destruct (hstate_HI h (hinit l k) (hinit_HI l k)) as (_ & _ & _ & H). apply H. exact Ha. Qed.
+Print Assumptions C02_replacements_use_the_same_parameters.
